@@ -3163,8 +3163,13 @@ class NameCheckVisitor(node_visitor.ReplacingNodeVisitor):
                 )
         try:
             output = format(output, format_spec)
-        except Exception:
-            # format failed
+        except Exception as e:
+            # format() raises the same way at run time
+            self._show_error_if_checking(
+                node,
+                f"Invalid format specifier {format_spec!r} for {val}: {e}",
+                error_code=ErrorCode.bad_format_string,
+            )
             return TypedValue(str)
         return KnownValue(output)
 
